@@ -343,13 +343,21 @@ def pipelined_scenarios(tier):
         for big in (0, 3000):                      # M1 shorter / longer than one 2048-byte read
             for cut in ('early', 'late', 'mid'):
                 yield {'pipelined': [pad, big, cut]}
+    # the first piece ends inside, at the end of, or just behind the 16-byte fixed header, and the bus reads it BEFORE the
+    # rest is written (first piece alone in the socket), or finds everything at once
+    for pad in (0, 3):
+        for big in (0, 3000):
+            for cut in (1, 4, 8, 12, 15, 16, 17, 24):
+                for between in (1, 0):
+                    yield {'pipelined': [pad, big, cut, between]}
 
 
 def task_pipelined(scns):
     out = []
     n = 0
     for scn in scns:
-        pad, big, cut = scn['pipelined']
+        pad, big, cut = scn['pipelined'][:3]
+        between = scn['pipelined'][3] if len(scn['pipelined']) > 3 else 0
         try:
             s_ = Session({'small': True})
             c, cg = s_.slots['F'], s_.slots['G']
@@ -360,8 +368,10 @@ def task_pipelined(scns):
                 return R.encode_message(R.Msg(R.MT_CALL, 1, ser, fields, [R.S(tok + 'x' * body_extra), R.H(0)]))
             m1 = mk('P1', pad + big)
             m2 = mk('P2', 3)
-            k = {'early': 20, 'late': len(m1) - 5, 'mid': len(m1) // 2}[cut]
+            k = {'early': 20, 'late': len(m1) - 5, 'mid': len(m1) // 2}[cut] if isinstance(cut, str) else cut
             s_.bus.h.cmd('SEND %d %s 0' % (c, m1[:k].hex()))
+            if between:
+                s_.bus.pump()
             s_.bus.h.cmd('SEND %d %s' % (c, m1[k:].hex()))
             s_.bus.h.cmd('SEND %d %s 1' % (c, m2.hex()))
             got_fds, toks = [], []
